@@ -135,6 +135,7 @@ type trRec struct {
 	Val    int      `json:"val"`
 	Err    string   `json:"err"`
 	Panic  int      `json:"panic"`
+	Pmsg   string   `json:"pmsg"`
 	Res    []trKV   `json:"res"`
 	Ents   []trEnt  `json:"ents"`
 	Ch     int      `json:"ch"` // refresh: 1 = channel returned, 0 = nil
@@ -492,6 +493,10 @@ func (r *seqRun) step(i int, op seqOp) (rec trRec) {
 		defer func() {
 			if p := recover(); p != nil {
 				rec.Panic = 1
+				rec.Pmsg = fmt.Sprint(p)
+				if len(rec.Pmsg) > 200 {
+					rec.Pmsg = rec.Pmsg[:200]
+				}
 			}
 		}()
 		b2i := func(b bool) int {
@@ -734,8 +739,11 @@ func (r *seqRun) saveLoad(op *seqOp, rec *trRec) {
 		max2 = op.Max2
 	}
 	clk2 := newManualClock(r.clk.NowNano() + op.Dt*r.cfg.Scale)
-	t := Must(r.options(max2, clk2, nil, nil))
+	t := Must(r.options(max(max2, 1), clk2, nil, nil))
 	defer t.StopAllGoroutines()
+	if r.cfg.Size != "none" {
+		t.SetMaximum(uint64(max2))
+	}
 	if err := LoadCacheFrom(t, &buf); err != nil {
 		rec.Err = "other"
 		return
